@@ -23,7 +23,7 @@ func init() {
 			"a segment never contains {{ {% {#, never ends with '{' before a tag, and never ends with a backslash directly before a tag (the engine's \\{{ escape is a different construct)",
 			"no dash modifiers here (C13); verbatim output need not equal the body bytes (only inertness is stated)",
 		},
-		quick: 1536 + 60000, thorough: 1536 + 131072 + 600000, minQuick: 20000, minThorough: 100000,
+		quick: 2048 + 60000, thorough: 2048 + 131072 + 600000, minQuick: 20000, minThorough: 100000,
 	}})
 }
 
@@ -58,7 +58,8 @@ func c04Tags(r *core.Rand, k int) c04Tag {
 	case 5:
 		return c04Tag{"{% set z" + fmt.Sprint(k%3) + " = 1 %}", ""}
 	default:
-		return c04Tag{"{# comment " + m + " #}", ""}
+		// comment shapes, including the empty and the unpadded ones
+		return c04Tag{[]string{"{# comment " + m + " #}", "{##}", "{# #}", "{#" + m + "#}", "{#\n#}", "{# {{ v0 }} #}", "{#}#}"}[r.Intn(7)], ""}
 	}
 }
 
@@ -113,12 +114,12 @@ func (p *c04) checkExact(rec *core.Recorder, class, src, want string, nontrivial
 
 func (p *c04) Run(rec *core.Recorder, seed uint64, idx int, tier string) {
 	r := core.NewRand("C04", seed, idx)
-	tagKinds := []c04Tag{{"{{ v0 }}", "V0v"}, {"{% if yes %}Y{% endif %}", "Y"}, {"{# c #}", ""}}
+	tagKinds := []c04Tag{{"{{ v0 }}", "V0v"}, {"{% if yes %}Y{% endif %}", "Y"}, {"{# c #}", ""}, {"{##}", ""}}
 	// ---- grid 1: every byte before / after each tag kind
-	if idx < 1536 {
+	if idx < 2048 {
 		b := string([]byte{byte(idx % 256)})
-		tk := tagKinds[idx/256%3]
-		after := idx/768 == 1
+		tk := tagKinds[idx/256%4]
+		after := idx/1024 == 1
 		var src, want string
 		if after {
 			src, want = "x"+tk.src+b+"y", "x"+tk.val+b+"y"
@@ -132,7 +133,7 @@ func (p *c04) Run(rec *core.Recorder, seed uint64, idx int, tier string) {
 		p.checkExact(rec, "byte-grid", src, want, idx%256 >= 128 || strings.ContainsAny(b, "{}%#\\\"'\r\n\x00"))
 		return
 	}
-	idx -= 1536
+	idx -= 2048
 	// ---- grid 2 (thorough): every byte pair adjacent to a print tag
 	if tier == "thorough" {
 		if idx < 131072 {
@@ -224,7 +225,19 @@ func (p *c04) comment(rec *core.Recorder, r *core.Rand) {
 		body = strings.ReplaceAll(body, "}}", "}") + extra
 	}
 	body = strings.ReplaceAll(body, "#}", "# }")
-	src := "A{# " + body + " #}B{{ v0 }}C"
+	pad := " "
+	if r.P(1, 4) {
+		// unpadded, empty and one-byte comment bodies
+		pad = ""
+		if r.P(1, 2) {
+			body = []string{"", " ", "x", "#", "{", "}", "%", "-", "\n", "{{", "{%", "\x00", "\xff"}[r.Intn(13)]
+		}
+	}
+	src := "A{#" + pad + body + pad + "#}B{{ v0 }}C"
+	if r.P(1, 3) {
+		// a comment directly before and directly after a print tag
+		src = "AB{#" + pad + body + pad + "#}{{ v0 }}{#" + pad + body + pad + "#}C"
+	}
 	want := "AB" + "V0v" + "C"
 	rec.Eval("comment", src, true)
 	cs := map[string]any{"source": fmt.Sprintf("%q", src)}
